@@ -23,6 +23,7 @@
 EXTENDS Integers, FiniteSets, TLC
 
 CONSTANTS Conns, MaxReq, NoConn,
+          Listeners,         \* listeners of the one Server, each served by its own Serve call
           CloseOnShutdown,   \* Server.CloseOnShutdown
           FlushOnStop,       \* the loop flushes buffered responses before leaving on stop
           IdleWhenDrained,   \* the loop marks the connection idle only if no further request is buffered
@@ -33,7 +34,10 @@ CONSTANTS Conns, MaxReq, NoConn,
 
 VARIABLES
   sd,          \* Shutdown: "no","stopset","lnclosed","ready","scan","closing","readopen","waiting","returned"
-  stop, lnOpen, serveRunning,
+  stop, lnOpen,
+  serveRunning, \* [Listeners -> BOOLEAN] the Serve call of the listener has not returned (it holds one unit of s.open)
+  accepting,   \* [Listeners -> Conns \cup {NoConn}] connection its Accept returned that is not yet counted in s.open
+               \* (keep-alive set-up, per-IP accounting and the ConnState(StateNew) callback happen in this window)
   done,        \* s.done: "nil" | "open" | "closed"  (created by Serve when nil, closed by Shutdown, nil again
                \*         after a Shutdown that returned nil)
   doneFlag,    \* s.doneClosed: done was already closed by a Shutdown
@@ -46,6 +50,8 @@ VARIABLES
   inmap,       \* [Conns -> BOOLEAN] registered in s.idleConns
   netClosed,   \* [Conns -> BOOLEAN] net.Conn closed on the server side
   cclosed,     \* [Conns -> BOOLEAN] closed by the client
+  tout,        \* [Conns -> BOOLEAN] the current request was answered through TimeoutError / TimeoutHandler: the loop
+               \* continues with a fresh RequestCtx whose time is the zero Time
   wire,        \* [Conns -> Nat] requests sent by the client, not yet read by the server
   buf,         \* [Conns -> Nat] complete requests sitting in the server's bufio.Reader
   sent,        \* [Conns -> Nat] requests sent so far
@@ -54,17 +60,19 @@ VARIABLES
   delivered,   \* [Conns -> Nat] responses flushed to the connection
   lost         \* [Conns -> Nat] responses of started handlers that can no longer reach the client
 
-cvars == <<ph, mark, inmap, netClosed, cclosed, wire, buf, sent, nstart, unflushed, delivered, lost>>
+cvars == <<ph, mark, inmap, netClosed, cclosed, tout, wire, buf, sent, nstart, unflushed, delivered, lost>>
 svars == <<sd, stop, lnOpen, done, doneFlag, scanned, victim>>
-vars == <<svars, serveRunning, open, cvars>>
+vars == <<svars, serveRunning, accepting, open, cvars>>
 
 ScanLock == sd \in {"scan", "closing"}     \* closeIdleConns holds idleConnsMu
 
 Init ==
-  /\ sd = "no" /\ stop = FALSE /\ lnOpen = TRUE /\ serveRunning = TRUE /\ done = "open" /\ doneFlag = FALSE
-  /\ open = 1 /\ scanned = {} /\ victim = NoConn
+  /\ sd = "no" /\ stop = FALSE /\ lnOpen = TRUE /\ serveRunning = [l \in Listeners |-> TRUE]
+  /\ accepting = [l \in Listeners |-> NoConn] /\ done = "open" /\ doneFlag = FALSE
+  /\ open = Cardinality(Listeners) /\ scanned = {} /\ victim = NoConn
   /\ ph = [c \in Conns |-> "none"] /\ mark = [c \in Conns |-> "fresh"]
   /\ inmap = [c \in Conns |-> FALSE] /\ netClosed = [c \in Conns |-> FALSE] /\ cclosed = [c \in Conns |-> FALSE]
+  /\ tout = [c \in Conns |-> FALSE]
   /\ wire = [c \in Conns |-> 0] /\ buf = [c \in Conns |-> 0] /\ sent = [c \in Conns |-> 0]
   /\ nstart = [c \in Conns |-> 0] /\ unflushed = [c \in Conns |-> 0]
   /\ delivered = [c \in Conns |-> 0] /\ lost = [c \in Conns |-> 0]
@@ -74,41 +82,51 @@ Init ==
 ClientSend(c, k) ==
   /\ ph[c] # "none" /\ ~cclosed[c] /\ k \in {1, 2} /\ sent[c] + k <= MaxReq
   /\ sent' = [sent EXCEPT ![c] = @ + k] /\ wire' = [wire EXCEPT ![c] = @ + k]
-  /\ UNCHANGED <<svars, serveRunning, open, ph, mark, inmap, netClosed, cclosed, buf, nstart, unflushed, delivered, lost>>
+  /\ UNCHANGED <<svars, serveRunning, accepting, open, ph, mark, inmap, netClosed, cclosed, tout, buf, nstart, unflushed, delivered, lost>>
 
 \* a well-behaved client only goes away when everything it asked for has been answered
 ClientClose(c) ==
   /\ ph[c] # "none" /\ ~cclosed[c] /\ delivered[c] = sent[c] /\ wire[c] = 0
   /\ cclosed' = [cclosed EXCEPT ![c] = TRUE]
-  /\ UNCHANGED <<svars, serveRunning, open, ph, mark, inmap, netClosed, wire, buf, sent, nstart, unflushed, delivered, lost>>
+  /\ UNCHANGED <<svars, serveRunning, accepting, open, ph, mark, inmap, netClosed, tout, wire, buf, sent, nstart, unflushed, delivered, lost>>
 
-(* Serve: accept, open++, hand to a worker.  An Accept that returned just before the listener
-   was closed is counted while Serve is still running. *)
-Accept(c) ==
-  /\ ph[c] = "none" /\ serveRunning
+(* Serve(l): c := Accept() ; [keep-alive set-up, per-IP accounting, ConnState(StateNew)] ; open++ ; hand to a
+   worker.  While a connection sits in that window it is covered only by the unit of s.open the Serve
+   call itself holds.  An Accept that returned just before the listener was closed still goes through. *)
+AcceptTake(l, c) ==
+  /\ serveRunning[l] /\ accepting[l] = NoConn /\ ph[c] = "none"
+  /\ accepting' = [accepting EXCEPT ![l] = c]
+  /\ ph' = [ph EXCEPT ![c] = "accepted"]
+  /\ UNCHANGED <<svars, serveRunning, open, mark, inmap, netClosed, cclosed, tout, wire, buf, sent, nstart, unflushed, delivered, lost>>
+
+AcceptTakeMC(l, c) == lnOpen /\ AcceptTake(l, c)
+
+AcceptCount(l) ==
+  /\ accepting[l] # NoConn
   /\ open' = open + 1
-  /\ ph' = [ph EXCEPT ![c] = "queued"]
-  /\ UNCHANGED <<svars, serveRunning, mark, inmap, netClosed, cclosed, wire, buf, sent, nstart, unflushed, delivered, lost>>
+  /\ ph' = [ph EXCEPT ![accepting[l]] = "queued"]
+  /\ accepting' = [accepting EXCEPT ![l] = NoConn]
+  /\ UNCHANGED <<svars, serveRunning, mark, inmap, netClosed, cclosed, tout, wire, buf, sent, nstart, unflushed, delivered, lost>>
 
-AcceptMC(c) == lnOpen /\ Accept(c)
-
-ServeReturn ==
-  /\ ~lnOpen /\ serveRunning
-  /\ serveRunning' = FALSE /\ open' = open - 1
-  /\ UNCHANGED <<svars, cvars>>
+\* Accept fails on the closed listener: Serve returns (deferred open--)
+ServeReturnL(l) ==
+  /\ serveRunning[l] /\ accepting[l] = NoConn
+  /\ serveRunning' = [serveRunning EXCEPT ![l] = FALSE] /\ open' = open - 1
+  /\ UNCHANGED <<svars, accepting, cvars>>
+ServeReturn(l) == ~lnOpen /\ ServeReturnL(l)
 
 \* the connection's loop registers it: idleConns[c] := start + 5s (under idleConnsMu)
 Register(c) ==
   /\ ph[c] = "queued" /\ ~ScanLock
   /\ ph' = [ph EXCEPT ![c] = "top"] /\ inmap' = [inmap EXCEPT ![c] = TRUE]
   /\ mark' = [mark EXCEPT ![c] = IF AllowFresh THEN "fresh" ELSE "idle"]
-  /\ UNCHANGED <<svars, serveRunning, open, netClosed, cclosed, wire, buf, sent, nstart, unflushed, delivered, lost>>
+  /\ UNCHANGED <<svars, serveRunning, accepting, open, netClosed, cclosed, tout, wire, buf, sent, nstart, unflushed, delivered, lost>>
 
 \* five seconds after the accept a silent new connection counts as idle
 Age(c) ==
   /\ mark[c] = "fresh" /\ ph[c] = "top"
   /\ mark' = [mark EXCEPT ![c] = "idle"]
-  /\ UNCHANGED <<svars, serveRunning, open, ph, inmap, netClosed, cclosed, wire, buf, sent, nstart, unflushed, delivered, lost>>
+  /\ UNCHANGED <<svars, serveRunning, accepting, open, ph, inmap, netClosed, cclosed, tout, wire, buf, sent, nstart, unflushed, delivered, lost>>
 
 -----------------------------------------------------------------------------
 (* connection loop *)
@@ -123,14 +141,14 @@ FirstByteFrom(c, p, lax) ==
   /\ IF AtomicIdleClose /\ mark[c] = "closing"
      THEN ph' = [ph EXCEPT ![c] = "leaving"] /\ UNCHANGED mark   \* claimed by Shutdown: give up, no handler
      ELSE mark' = [mark EXCEPT ![c] = "active"] /\ ph' = [ph EXCEPT ![c] = "read"]
-  /\ UNCHANGED <<svars, serveRunning, open, inmap, netClosed, cclosed, sent, nstart, unflushed, delivered, lost>>
+  /\ UNCHANGED <<svars, serveRunning, accepting, open, inmap, netClosed, cclosed, tout, sent, nstart, unflushed, delivered, lost>>
 FirstByte(c) == FirstByteFrom(c, "top", FALSE)
 
 \* the read returns nothing: closed by closeIdleConns, or by the client
 ReadFailFrom(c, p) ==
   /\ ph[c] = p /\ buf[c] = 0 /\ (netClosed[c] \/ (cclosed[c] /\ wire[c] = 0))
   /\ ph' = [ph EXCEPT ![c] = "leaving"]
-  /\ UNCHANGED <<svars, serveRunning, open, mark, inmap, netClosed, cclosed, wire, buf, sent, nstart, unflushed, delivered, lost>>
+  /\ UNCHANGED <<svars, serveRunning, accepting, open, mark, inmap, netClosed, cclosed, tout, wire, buf, sent, nstart, unflushed, delivered, lost>>
 ReadFail(c) == ReadFailFrom(c, "top")
 
 \* the request is read (from the buffer, or from the connection when the loop turned active eagerly)
@@ -139,26 +157,29 @@ HandlerStart(c) ==
   /\ IF buf[c] > 0 THEN buf' = [buf EXCEPT ![c] = @ - 1] /\ UNCHANGED wire
                    ELSE buf' = [buf EXCEPT ![c] = wire[c] - 1] /\ wire' = [wire EXCEPT ![c] = 0]
   /\ nstart' = [nstart EXCEPT ![c] = @ + 1]
-  /\ ph' = [ph EXCEPT ![c] = "handler"]
-  /\ UNCHANGED <<svars, serveRunning, open, mark, inmap, netClosed, cclosed, sent, unflushed, delivered, lost>>
+  /\ ph' = [ph EXCEPT ![c] = "handler"] /\ tout' = [tout EXCEPT ![c] = FALSE]
+  /\ UNCHANGED <<svars, serveRunning, accepting, open, mark, inmap, netClosed, cclosed, sent, unflushed, delivered, lost>>
 
 \* the request never arrives completely: the connection is closed under the reading loop
 ReadAbort(c) ==
   /\ ph[c] = "read" /\ buf[c] = 0 /\ wire[c] = 0 /\ (netClosed[c] \/ cclosed[c])
   /\ ph' = [ph EXCEPT ![c] = "leaving"]
-  /\ UNCHANGED <<svars, serveRunning, open, mark, inmap, netClosed, cclosed, wire, buf, sent, nstart, unflushed, delivered, lost>>
+  /\ UNCHANGED <<svars, serveRunning, accepting, open, mark, inmap, netClosed, cclosed, tout, wire, buf, sent, nstart, unflushed, delivered, lost>>
 
-HandlerEnd(c) ==
+\* the handler returns; timedOut: through TimeoutError* / TimeoutHandler, so that the loop swaps in a fresh ctx
+HandlerEndK(c, timedOut) ==
   /\ ph[c] = "handler"
   /\ ph' = [ph EXCEPT ![c] = "respond"]
-  /\ UNCHANGED <<svars, serveRunning, open, mark, inmap, netClosed, cclosed, wire, buf, sent, nstart, unflushed, delivered, lost>>
+  /\ tout' = [tout EXCEPT ![c] = timedOut]
+  /\ UNCHANGED <<svars, serveRunning, accepting, open, mark, inmap, netClosed, cclosed, wire, buf, sent, nstart, unflushed, delivered, lost>>
+HandlerEnd(c) == HandlerEndK(c, FALSE) \/ HandlerEndK(c, TRUE)
 
 \* writeResponse(ctx, bw): into the bufio.Writer
 WriteResp(c) ==
   /\ ph[c] = "respond"
   /\ unflushed' = [unflushed EXCEPT ![c] = @ + 1]
   /\ ph' = [ph EXCEPT ![c] = "written"]
-  /\ UNCHANGED <<svars, serveRunning, open, mark, inmap, netClosed, cclosed, wire, buf, sent, nstart, delivered, lost>>
+  /\ UNCHANGED <<svars, serveRunning, accepting, open, mark, inmap, netClosed, cclosed, tout, wire, buf, sent, nstart, delivered, lost>>
 
 ConnClose == CloseOnShutdown /\ stop       \* connectionClose computed before the write
 FlushWanted(c) == buf[c] = 0 \/ ConnClose
@@ -168,28 +189,29 @@ FlushEffect(c) ==
   /\ delivered' = [delivered EXCEPT ![c] = @ + unflushed[c]]
   /\ unflushed' = [unflushed EXCEPT ![c] = 0]
   /\ ph' = [ph EXCEPT ![c] = "flushed"]
-  /\ UNCHANGED <<svars, serveRunning, open, mark, inmap, netClosed, cclosed, wire, buf, sent, nstart, lost>>
+  /\ UNCHANGED <<svars, serveRunning, accepting, open, mark, inmap, netClosed, cclosed, tout, wire, buf, sent, nstart, lost>>
 Flush(c) == FlushWanted(c) /\ FlushEffect(c)
 
 \* bw.Flush() fails on a connection closed under the loop's feet: break
 FlushFailEffect(c) ==
   /\ ph[c] = "written" /\ netClosed[c]
   /\ ph' = [ph EXCEPT ![c] = "leaving"]
-  /\ UNCHANGED <<svars, serveRunning, open, mark, inmap, netClosed, cclosed, wire, buf, sent, nstart, unflushed, delivered, lost>>
+  /\ UNCHANGED <<svars, serveRunning, accepting, open, mark, inmap, netClosed, cclosed, tout, wire, buf, sent, nstart, unflushed, delivered, lost>>
 FlushFail(c) == FlushWanted(c) /\ FlushFailEffect(c)
 
 \* if connectionClose { break }
 CloseBreak(c) ==
   /\ ph[c] = "flushed" /\ ConnClose
   /\ ph' = [ph EXCEPT ![c] = "leaving"]
-  /\ UNCHANGED <<svars, serveRunning, open, mark, inmap, netClosed, cclosed, wire, buf, sent, nstart, unflushed, delivered, lost>>
+  /\ UNCHANGED <<svars, serveRunning, accepting, open, mark, inmap, netClosed, cclosed, tout, wire, buf, sent, nstart, unflushed, delivered, lost>>
 
 \* idleConnTime.Store(ctx.time.Unix())
 MarkIdleEffect(c) ==
   /\ ph[c] \in {"written", "flushed"}
-  /\ mark' = [mark EXCEPT ![c] = IF IdleWhenDrained /\ ph[c] = "written" THEN @ ELSE "idle"]
+  /\ mark' = [mark EXCEPT ![c] = IF IdleWhenDrained /\ ph[c] = "written" THEN @
+                                 ELSE IF tout[c] THEN "idleOld" ELSE "idle"]   \* ctx.time of a fresh ctx is the zero Time
   /\ ph' = [ph EXCEPT ![c] = "check"]
-  /\ UNCHANGED <<svars, serveRunning, open, inmap, netClosed, cclosed, wire, buf, sent, nstart, unflushed, delivered, lost>>
+  /\ UNCHANGED <<svars, serveRunning, accepting, open, inmap, netClosed, cclosed, tout, wire, buf, sent, nstart, unflushed, delivered, lost>>
 MarkIdle(c) == /\ (ph[c] = "written" => ~FlushWanted(c)) /\ (ph[c] = "flushed" => ~ConnClose)
                /\ MarkIdleEffect(c)
 
@@ -197,26 +219,26 @@ MarkIdle(c) == /\ (ph[c] = "written" => ~FlushWanted(c)) /\ (ph[c] = "flushed" =
 StopSeen(c) ==
   /\ ph[c] = "check" /\ stop
   /\ ph' = [ph EXCEPT ![c] = "stopping"]
-  /\ UNCHANGED <<svars, serveRunning, open, mark, inmap, netClosed, cclosed, wire, buf, sent, nstart, unflushed, delivered, lost>>
+  /\ UNCHANGED <<svars, serveRunning, accepting, open, mark, inmap, netClosed, cclosed, tout, wire, buf, sent, nstart, unflushed, delivered, lost>>
 
 StopFlushEffect(c) ==
   /\ ph[c] = "stopping" /\ ~netClosed[c]
   /\ delivered' = [delivered EXCEPT ![c] = @ + unflushed[c]]
   /\ unflushed' = [unflushed EXCEPT ![c] = 0]
   /\ ph' = [ph EXCEPT ![c] = "leaving"]
-  /\ UNCHANGED <<svars, serveRunning, open, mark, inmap, netClosed, cclosed, wire, buf, sent, nstart, lost>>
+  /\ UNCHANGED <<svars, serveRunning, accepting, open, mark, inmap, netClosed, cclosed, tout, wire, buf, sent, nstart, lost>>
 StopFlush(c) == FlushOnStop /\ StopFlushEffect(c)
 
 \* no flush (as found), or the flush fails on a connection that is already closed
 StopNoFlush(c) ==
   /\ ph[c] = "stopping" /\ (~FlushOnStop \/ netClosed[c])
   /\ ph' = [ph EXCEPT ![c] = "leaving"]
-  /\ UNCHANGED <<svars, serveRunning, open, mark, inmap, netClosed, cclosed, wire, buf, sent, nstart, unflushed, delivered, lost>>
+  /\ UNCHANGED <<svars, serveRunning, accepting, open, mark, inmap, netClosed, cclosed, tout, wire, buf, sent, nstart, unflushed, delivered, lost>>
 
 Continue(c) ==
   /\ ph[c] = "check" /\ ~stop
   /\ ph' = [ph EXCEPT ![c] = "top"]
-  /\ UNCHANGED <<svars, serveRunning, open, mark, inmap, netClosed, cclosed, wire, buf, sent, nstart, unflushed, delivered, lost>>
+  /\ UNCHANGED <<svars, serveRunning, accepting, open, mark, inmap, netClosed, cclosed, tout, wire, buf, sent, nstart, unflushed, delivered, lost>>
 
 \* after the loop: what is still in the bufio.Writer is dropped; delete(s.idleConns, c) under idleConnsMu
 UnregisterFrom(c, P) ==
@@ -225,7 +247,7 @@ UnregisterFrom(c, P) ==
   /\ unflushed' = [unflushed EXCEPT ![c] = 0]
   /\ inmap' = [inmap EXCEPT ![c] = FALSE]
   /\ ph' = [ph EXCEPT ![c] = "unreg"]
-  /\ UNCHANGED <<svars, serveRunning, open, mark, netClosed, cclosed, wire, buf, sent, nstart, delivered>>
+  /\ UNCHANGED <<svars, serveRunning, accepting, open, mark, netClosed, cclosed, tout, wire, buf, sent, nstart, delivered>>
 Unregister(c) == UnregisterFrom(c, {"leaving"})
 
 \* serveConnCleanup: open-- ; then the worker closes the connection
@@ -234,19 +256,19 @@ OpenDec(c) ==
   /\ open' = open - 1
   /\ netClosed' = [netClosed EXCEPT ![c] = TRUE]
   /\ ph' = [ph EXCEPT ![c] = "exited"]
-  /\ UNCHANGED <<svars, serveRunning, mark, inmap, cclosed, wire, buf, sent, nstart, unflushed, delivered, lost>>
+  /\ UNCHANGED <<svars, serveRunning, accepting, mark, inmap, cclosed, tout, wire, buf, sent, nstart, unflushed, delivered, lost>>
 
 -----------------------------------------------------------------------------
 (* Shutdown *)
 SetStop ==
   /\ sd = "no"
   /\ stop' = TRUE /\ sd' = "stopset"
-  /\ UNCHANGED <<lnOpen, done, doneFlag, scanned, victim, serveRunning, open, cvars>>
+  /\ UNCHANGED <<lnOpen, done, doneFlag, scanned, victim, serveRunning, accepting, open, cvars>>
 
 CloseListeners ==
   /\ sd = "stopset"
   /\ lnOpen' = FALSE /\ sd' = "lnclosed"
-  /\ UNCHANGED <<stop, done, doneFlag, scanned, victim, serveRunning, open, cvars>>
+  /\ UNCHANGED <<stop, done, doneFlag, scanned, victim, serveRunning, accepting, open, cvars>>
 
 CloseDone ==
   /\ sd = "lnclosed"
@@ -254,13 +276,13 @@ CloseDone ==
      THEN done' = "closed" /\ doneFlag' = TRUE
      ELSE UNCHANGED <<done, doneFlag>>
   /\ sd' = "ready"
-  /\ UNCHANGED <<stop, lnOpen, scanned, victim, serveRunning, open, cvars>>
+  /\ UNCHANGED <<stop, lnOpen, scanned, victim, serveRunning, accepting, open, cvars>>
 
 \* closeIdleConns: lock
 ScanBegin ==
   /\ sd \in {"ready", "waiting"}
   /\ sd' = "scan" /\ scanned' = {}
-  /\ UNCHANGED <<stop, lnOpen, done, doneFlag, victim, serveRunning, open, cvars>>
+  /\ UNCHANGED <<stop, lnOpen, done, doneFlag, victim, serveRunning, accepting, open, cvars>>
 
 \* one registered connection: the idle test (isIdle: what the code computed) ...
 ScanTestResult(c, isIdle) ==
@@ -270,16 +292,18 @@ ScanTestResult(c, isIdle) ==
      THEN /\ sd' = "closing" /\ victim' = c
           /\ mark' = [mark EXCEPT ![c] = IF AtomicIdleClose THEN "closing" ELSE @]
      ELSE UNCHANGED <<sd, victim, mark>>
-  /\ UNCHANGED <<stop, lnOpen, done, doneFlag, serveRunning, open, ph, inmap, netClosed, cclosed, wire, buf, sent, nstart,
+  /\ UNCHANGED <<stop, lnOpen, done, doneFlag, serveRunning, accepting, open, ph, inmap, netClosed, cclosed, tout, wire, buf, sent, nstart,
                  unflushed, delivered, lost>>
-ScanTest(c) == ScanTestResult(c, mark[c] = "idle")
+\* idle: a time stamp that is not in the future, whatever request left it
+IsIdleMark(m) == m \in {"idle", "idleOld"}
+ScanTest(c) == ScanTestResult(c, IsIdleMark(mark[c]))
 
 \* ... and its c.Close() ; delete(s.idleConns, c)
 CloseIdle ==
   /\ sd = "closing"
   /\ netClosed' = [netClosed EXCEPT ![victim] = TRUE] /\ inmap' = [inmap EXCEPT ![victim] = FALSE]
   /\ sd' = "scan" /\ victim' = NoConn
-  /\ UNCHANGED <<stop, lnOpen, done, doneFlag, scanned, serveRunning, open, ph, mark, cclosed, wire, buf, sent, nstart,
+  /\ UNCHANGED <<stop, lnOpen, done, doneFlag, scanned, serveRunning, accepting, open, ph, mark, cclosed, tout, wire, buf, sent, nstart,
                  unflushed, delivered, lost>>
 
 \* test and close of one visited connection as one step (trace validation: the repaired code logs
@@ -288,36 +312,39 @@ CloseIdleNow(c) ==
   /\ sd = "scan" /\ c \in scanned /\ inmap[c]
   /\ netClosed' = [netClosed EXCEPT ![c] = TRUE] /\ inmap' = [inmap EXCEPT ![c] = FALSE]
   /\ mark' = [mark EXCEPT ![c] = "closing"]
-  /\ UNCHANGED <<sd, victim, stop, lnOpen, done, doneFlag, scanned, serveRunning, open, ph, cclosed, wire, buf, sent, nstart,
+  /\ UNCHANGED <<sd, victim, stop, lnOpen, done, doneFlag, scanned, serveRunning, accepting, open, ph, cclosed, tout, wire, buf, sent, nstart,
                  unflushed, delivered, lost>>
 
 \* unlock
 ScanEnd ==
   /\ sd = "scan" /\ \A c \in Conns : inmap[c] => c \in scanned
   /\ sd' = "readopen"
-  /\ UNCHANGED <<stop, lnOpen, done, doneFlag, scanned, victim, serveRunning, open, cvars>>
+  /\ UNCHANGED <<stop, lnOpen, done, doneFlag, scanned, victim, serveRunning, accepting, open, cvars>>
 
 \* open = 0: s.done = nil ; s.doneClosed = false ; return nil (the deferred stop.Store(0) runs)
 ReadOpenResult(zero) ==
   /\ sd = "readopen" /\ (zero => open = 0)
   /\ IF zero THEN sd' = "returned" /\ done' = "nil" /\ doneFlag' = FALSE /\ stop' = FALSE
              ELSE sd' = "waiting" /\ UNCHANGED <<done, doneFlag, stop>>
-  /\ UNCHANGED <<lnOpen, scanned, victim, serveRunning, open, cvars>>
+  /\ UNCHANGED <<lnOpen, scanned, victim, serveRunning, accepting, open, cvars>>
 ReadOpen == ReadOpenResult(open = 0) /\ TRUE
 
 \* the Server is reused: Serve is called again with a new listener after a Shutdown that returned nil.
 \* Connection identities are recycled (every connection of the previous cycle has ended: ReturnedQuiet).
-ServeAgain ==
+ServeAgainSet(L) ==
   /\ sd = "returned"
-  /\ sd' = "no" /\ lnOpen' = TRUE /\ serveRunning' = TRUE /\ open' = open + 1
+  /\ sd' = "no" /\ lnOpen' = TRUE /\ serveRunning' = [l \in Listeners |-> l \in L]
+  /\ accepting' = [l \in Listeners |-> NoConn] /\ open' = open + Cardinality(L)
   /\ done' = IF done = "nil" THEN "open" ELSE done
   /\ scanned' = {} /\ victim' = NoConn
   /\ ph' = [c \in Conns |-> "none"] /\ mark' = [c \in Conns |-> "fresh"]
   /\ inmap' = [c \in Conns |-> FALSE] /\ netClosed' = [c \in Conns |-> FALSE] /\ cclosed' = [c \in Conns |-> FALSE]
+  /\ tout' = [c \in Conns |-> FALSE]
   /\ wire' = [c \in Conns |-> 0] /\ buf' = [c \in Conns |-> 0] /\ sent' = [c \in Conns |-> 0]
   /\ nstart' = [c \in Conns |-> 0] /\ unflushed' = [c \in Conns |-> 0]
   /\ delivered' = [c \in Conns |-> 0] /\ lost' = [c \in Conns |-> 0]
   /\ UNCHANGED <<stop, doneFlag>>
+ServeAgain == ServeAgainSet(Listeners)
 
 ConnStep(c) == \/ Register(c) \/ FirstByte(c) \/ ReadFail(c) \/ HandlerStart(c) \/ ReadAbort(c) \/ HandlerEnd(c) \/ WriteResp(c)
                \/ Flush(c) \/ FlushFail(c) \/ CloseBreak(c) \/ MarkIdle(c) \/ StopSeen(c) \/ StopFlush(c) \/ StopNoFlush(c)
@@ -327,15 +354,18 @@ ShutdownStep == \/ SetStop \/ CloseListeners \/ CloseDone \/ ScanBegin \/ (\E c 
                 \/ CloseIdle \/ ScanEnd \/ ReadOpen
 
 Next ==
-  \/ \E c \in Conns : ClientSend(c, 1) \/ ClientSend(c, 2) \/ ClientClose(c) \/ AcceptMC(c) \/ Age(c) \/ ConnStep(c)
-  \/ ServeReturn \/ ShutdownStep \/ ServeAgain
+  \/ \E c \in Conns : ClientSend(c, 1) \/ ClientSend(c, 2) \/ ClientClose(c) \/ Age(c) \/ ConnStep(c)
+                      \/ \E l \in Listeners : AcceptTakeMC(l, c)
+  \/ \E l \in Listeners : AcceptCount(l) \/ ServeReturn(l)
+  \/ ShutdownStep \/ ServeAgain
 
 Spec == Init /\ [][Next]_vars
 
 \* the server's own steps are fair, handlers return, time passes; clients owe nothing.
 \* (idleConnsMu is a fair mutex: a loop waiting for it gets it between two closeIdleConns rounds, hence SF)
 Fairness == /\ \A c \in Conns : SF_vars(ConnStep(c)) /\ WF_vars(Age(c))
-            /\ WF_vars(ServeReturn) /\ WF_vars(ShutdownStep)
+            /\ \A l \in Listeners : WF_vars(ServeReturn(l)) /\ WF_vars(AcceptCount(l))
+            /\ WF_vars(ShutdownStep)
 FairSpec == Spec /\ Fairness
 
 -----------------------------------------------------------------------------
@@ -343,16 +373,18 @@ FairSpec == Spec /\ Fairness
 TypeOK ==
   /\ sd \in {"no", "stopset", "lnclosed", "ready", "scan", "closing", "readopen", "waiting", "returned"}
   /\ open \in Nat /\ scanned \subseteq Conns
-  /\ ph \in [Conns -> {"none", "queued", "top", "read", "handler", "respond", "written", "flushed", "check",
+  /\ ph \in [Conns -> {"none", "accepted", "queued", "top", "read", "handler", "respond", "written", "flushed", "check",
                        "stopping", "leaving", "unreg", "exited"}]
-  /\ mark \in [Conns -> {"fresh", "active", "idle", "closing"}]
+  /\ mark \in [Conns -> {"fresh", "active", "idle", "idleOld", "closing"}]
   /\ buf \in [Conns -> Nat] /\ unflushed \in [Conns -> Nat]
 
 \* s.open counts the listening Serve and every connection between accept and the end of its loop
-OpenExact == open = (IF serveRunning THEN 1 ELSE 0) + Cardinality({c \in Conns : ph[c] \notin {"none", "exited"}})
+OpenExact == open = Cardinality({l \in Listeners : serveRunning[l]})
+                    + Cardinality({c \in Conns : ph[c] \notin {"none", "accepted", "exited"}})
 
 \* when Shutdown returns nil: listeners closed, Serve returned, nothing is served any more, ...
-ReturnedQuiet == sd = "returned" => /\ ~lnOpen /\ ~serveRunning
+\* (every Serve call, on every listener; no connection is left in an accept loop's hands)
+ReturnedQuiet == sd = "returned" => /\ ~lnOpen /\ \A l \in Listeners : ~serveRunning[l] /\ accepting[l] = NoConn
                                     /\ \A c \in Conns : ph[c] \in {"none", "exited"}
 \* ... and every request whose handler started got its response onto the connection
 ReturnedAnswered == sd = "returned" => \A c \in Conns : nstart[c] = delivered[c]
